@@ -284,15 +284,14 @@ func ruleR25_3(c *Check) {
 			return true
 		}
 		for _, g := range w.Guards(it, b) {
-			be, ok := g.Cond.(*ast.BinaryExpr)
-			if !ok || !g.Val || g.Implicit {
+			if g.Implicit {
 				continue
 			}
-			if call, ok := unparen(be.X).(*ast.CallExpr); ok && w.Callee(call) == types.Object(w.Func("bytes.Compare")) && len(call.Args) == 2 && w.fieldOf(call.Args[1]) == right {
-				if v, ok := w.constInt(be.Y); ok && v == 0 {
-					r.Check(be.Op == token.GEQ, it, "producer stops at key >= right end", b, "range end test is '"+be.Op.String()+" 0'")
-					okStop = true
-				}
+			// Compare(key, kr.right) op 0, oriented with the key first, however it is spelled
+			notRight := func(e ast.Expr) bool { return w.fieldOf(w.from(e)) != right }
+			if op, call, ok := w.threeWay(g.Cond, g.Val, notRight, w.Func("bytes.Compare"), w.Func("y.CompareKeys")); ok && w.fieldOf(w.from(otherArg(call, notRight))) == right {
+				r.Check(op == token.GEQ, it, "producer stops at key >= right end", b, "range end test is `key "+op.String()+" right`")
+				okStop = true
 			}
 		}
 		return true
@@ -365,10 +364,229 @@ func ruleR25_3(c *Check) {
 	r.Check(okOpen, rg, "last range is open-ended", nil, "no final keyRange{left: start}")
 }
 
+func ruleR25_4(c *Check) {
+	w := c.W
+	r := c.Rule("R25.4", "E1+E6", 10, "each key once per producer: in produceKVs' scan the key just handled is remembered (a copy of item.Key()) before anything can skip the rest of the iteration, an item whose key equals it is stepped over with Next, and every `continue` of the scan is preceded in its iteration by that store or by an advance of the iterator (so the scan always moves and never hands the same key to KeyToList twice); every KV of a list goes into the output buffer; a full buffer is sent, and what is left is sent before the range ends; Stream.ToList stops at the first other key, at a deleted/expired version, after one version when NumVersionsToKeep is 1 and after a discard-earlier marker; streamKVs writes every received buffer into the batch it sends",
+		"a key handed to KeyToList twice is delivered twice; a skipped remainder or an unsent last buffer loses keys")
+	p := w.F("badger.Stream.produceKVs")
+	it := p.LitVar("iterate")
+	itemKey := w.Func("badger.Item.Key")
+	// prevKey: the []byte local compared with item.Key() for equality and stored from it
+	var prev *types.Var
+	it.walk(func(n ast.Node) bool {
+		call, ok := n.(*ast.CallExpr)
+		if !ok || len(call.Args) != 2 {
+			return true
+		}
+		fn, _ := w.Callee(call).(*types.Func)
+		if fn == nil || fn.Name() != "Equal" {
+			return true
+		}
+		for i, a := range call.Args {
+			if w.isCallTo(a, itemKey) {
+				if id, ok := unparen(call.Args[1-i]).(*ast.Ident); ok {
+					if v, ok := w.Use(id).(*types.Var); ok && isByteSlice(v.Type()) {
+						prev = v
+					}
+				}
+			}
+		}
+		return true
+	})
+	if prev == nil {
+		panic(anchorError{"previous-key variable of the stream producer's scan"})
+	}
+	store := selStoreVar(prev)
+	next := selPred("itr.Next()", func(w *World, f *Fn, n ast.Node) bool {
+		call, ok := n.(*ast.CallExpr)
+		return ok && w.Callee(call) == types.Object(w.Func("badger.Iterator.Next"))
+	})
+	// the store is a copy of the current key
+	for _, s := range it.Sites(store) {
+		as, ok := s.(*ast.AssignStmt)
+		if !ok || as.Tok == token.DEFINE && len(as.Rhs) == 1 && isNil(as.Rhs[0]) {
+			continue
+		}
+		okCopy := false
+		if len(as.Rhs) == 1 {
+			if call, ok := unparen(as.Rhs[0]).(*ast.CallExpr); ok {
+				if isBuiltin(w, call, "append") && call.Ellipsis.IsValid() && len(call.Args) == 2 && w.isCallTo(call.Args[1], itemKey) {
+					okCopy = true
+				}
+				if (isCallNamed(w, call, "Copy") || isCallNamed(w, call, "SafeCopy") || isCallNamed(w, call, "KeyCopy")) && (w.mentions(call, itemKey) || isCallNamed(w, call, "KeyCopy")) {
+					okCopy = true
+				}
+			}
+		}
+		r.Check(okCopy, it, "the remembered key is a copy of the current key", s, "prevKey is not a copy of item.Key() (the iterator reuses that buffer)")
+	}
+	// dedupe branch: Equal(item.Key(), prevKey) => Next
+	okSkip := false
+	for _, s := range it.Sites(next) {
+		for _, g := range w.Guards(it, s) {
+			if call, ok := unparen(g.Cond).(*ast.CallExpr); ok && g.Val && !g.Implicit && w.mentions(call, prev) && w.mentions(call, itemKey) {
+				okSkip = true
+			}
+		}
+	}
+	r.Check(okSkip, it, "further versions of the key just handled are stepped over", nil, "no itr.Next() under bytes.Equal(item.Key(), prevKey)")
+	// every continue of the scan loop is preceded by the store or an advance
+	var scan *ast.ForStmt
+	it.walk(func(n ast.Node) bool {
+		if fs, ok := n.(*ast.ForStmt); ok && fs.Init != nil && scan == nil {
+			if containsSel(w, it, fs.Init, selCallName(w, "badger.Iterator.Seek")) {
+				scan = fs
+			}
+		}
+		return true
+	})
+	r.Check(scan != nil, it, "scan loop found", nil, "no `for itr.Seek(…); itr.Valid(); {` loop in the producer")
+	if scan != nil {
+		keyToList := selPred("KeyToList", func(w *World, f *Fn, n ast.Node) bool {
+			call, ok := n.(*ast.CallExpr)
+			if !ok {
+				return false
+			}
+			fld := w.fieldOf(call.Fun)
+			return fld == w.Field("badger.Stream.KeyToList") || fld == w.Field("badger.Stream.KeyToListWithThreadId")
+		})
+		var k keyer
+		ast.Inspect(scan.Body, func(n ast.Node) bool {
+			switch x := n.(type) {
+			case *ast.FuncLit:
+				return false
+			case *ast.ForStmt, *ast.RangeStmt:
+				if n != ast.Node(scan) {
+					return false // `continue` inside an inner loop belongs to that loop
+				}
+			case *ast.BranchStmt:
+				if x.Tok == token.CONTINUE {
+					res := it.Dominated(Occ{V: it.G().VertexOf(x), Node: x}, append(append(it.Occs(store, 0), it.Occs(next, 0)...), it.Occs(keyToList, 0)...))
+					// dominance over the whole function is too weak for a loop (a store in an earlier iteration
+					// dominates nothing here); require the store/advance to precede the continue inside the body
+					okPos := false
+					for _, s := range append(it.Sites(store), it.Sites(next)...) {
+						if s.Pos() > scan.Body.Pos() && s.End() < x.Pos() {
+							if as, ok := s.(*ast.AssignStmt); ok && as.Tok == token.DEFINE {
+								continue
+							}
+							// not nested in a conditional the continue is not also nested in
+							mine := map[ast.Node]bool{}
+							for _, g := range w.Guards(it, x) {
+								if !g.Implicit {
+									mine[g.At] = true
+								}
+							}
+							sub := true
+							for _, g := range w.Guards(it, s) {
+								if !g.Implicit && g.At != ast.Node(scan) && !mine[g.At] {
+									sub = false
+								}
+							}
+							if sub {
+								okPos = true
+							}
+						}
+					}
+					_ = res
+					r.Check(okPos, it, k.key("the scan moves on before it skips the rest of an iteration", w, x), x, "this `continue` is reached without the current key having been remembered or the iterator advanced: the same item is looked at again forever, or handed out twice")
+				}
+			}
+			return true
+		})
+		// every KV of a list reaches the buffer
+		okAll := false
+		ast.Inspect(scan.Body, func(n ast.Node) bool {
+			if rs, ok := n.(*ast.RangeStmt); ok && w.fieldOf(rs.X) == w.Field("pb.KVList.Kv") {
+				for _, st := range rs.Body.List {
+					if es, ok := st.(*ast.ExprStmt); ok && isCallNamed(w, es.X, "KVToBuffer") {
+						okAll = true
+					}
+				}
+			}
+			return true
+		})
+		r.Check(okAll, it, "every KV of a key's list is buffered", nil, "KVToBuffer is not called unconditionally for each KV of the list")
+	}
+	// the last buffer is sent
+	sendIt := it.LitVar("sendIt")
+	r.ExitsNeed(it, "remaining buffer sent before the range ends", selCallFn(sendIt), 0, exitSuccess)
+	// ToList's stops
+	tl := w.F("badger.Stream.ToList")
+	stops := map[string]bool{}
+	tl.walk(func(n ast.Node) bool {
+		b, ok := n.(*ast.BranchStmt)
+		if !ok || b.Tok != token.BREAK {
+			return true
+		}
+		for _, g := range w.Guards(tl, b) {
+			if g.Implicit {
+				continue
+			}
+			switch {
+			case isCallNamed(w, g.Cond, "IsDeletedOrExpired") && g.Val:
+				stops["deleted"] = true
+			case isCallNamed(w, g.Cond, "DiscardEarlierVersions") && g.Val:
+				stops["discard"] = true
+			case w.mentions(g.Cond, w.Field("badger.Options.NumVersionsToKeep")):
+				stops["one"] = eqOf(g, true, w.isField(w.Field("badger.Options.NumVersionsToKeep")), w.isConst(1))
+			default:
+				if call, ok := unparen(g.Cond).(*ast.CallExpr); ok && !g.Val {
+					if fn, _ := w.Callee(call).(*types.Func); fn != nil && fn.Name() == "Equal" {
+						stops["otherkey"] = true
+					}
+				}
+			}
+		}
+		return true
+	})
+	for _, s := range []string{"deleted", "discard", "one", "otherkey"} {
+		r.Check(stops[s], tl, "ToList stops: "+s, nil, "Stream.ToList has no stop for: "+s)
+	}
+	// the other-key and deleted tests come before the KV is appended
+	for _, s := range tl.Sites(selStore(w.Field("pb.KVList.Kv"))) {
+		okG := false
+		for _, g := range w.Guards(tl, s) {
+			if call, ok := unparen(g.Cond).(*ast.CallExpr); ok && g.Implicit && g.Val {
+				if fn, _ := w.Callee(call).(*types.Func); fn != nil && fn.Name() == "Equal" {
+					okG = true
+				}
+			}
+		}
+		r.Check(okG, tl, "only versions of the requested key are listed", s, "a KV is appended without the key having been compared with the requested key")
+	}
+	// streamKVs: every received buffer is written into the batch
+	sk := w.F("badger.Stream.streamKVs")
+	kvCh := w.Field("badger.Stream.kvChan")
+	for _, o := range sk.SitesDeep(selRecv(kvCh)) {
+		// the CommClause body writes kvs into the batch
+		var cc *ast.CommClause
+		for p := w.parentOf(o.Site); p != nil; p = w.parentOf(p) {
+			if c2, ok := p.(*ast.CommClause); ok {
+				cc = c2
+				break
+			}
+		}
+		okW := false
+		if cc != nil {
+			for _, st := range cc.Body {
+				ast.Inspect(st, func(m ast.Node) bool {
+					if call, ok := m.(*ast.CallExpr); ok && (isCallNamed(w, call, "Write") || w.calleeFn(o.SiteFn, call) != nil && w.calleeFn(o.SiteFn, call).Parent == sk) {
+						okW = true
+					}
+					return true
+				})
+			}
+		}
+		r.Check(okW, o.SiteFn, "a received buffer goes into the batch that is sent", o.Site, "a buffer received from kvChan is dropped")
+	}
+}
+
 func propC25(c *Check) {
 	ruleR25_1(c)
 	ruleR25_2(c)
 	ruleR25_3(c)
+	ruleR25_4(c)
 }
 
 func ruleR24_3(c *Check) {
